@@ -765,6 +765,18 @@ Section WriterModes.
   Qed.
 
   (* one `writer += record` under the three stringencies *)
+  (* record_text only raises PlainException *)
+  Lemma record_text_not_format (v : mrec) e : record_text sem v = Raise e -> forall t l, e <> MafFormat t l.
+  Proof.
+    intros ET t l ->. unfold record_text in ET.
+    destruct (slots_text sem (rlist (mcols v))) as [ts|e'] eqn:E1; [discriminate|].
+    simpl in ET. injection ET as ->.
+    revert E1. generalize (rlist (mcols v)). intros sl. induction sl as [|[c|] sl IH]; simpl; [discriminate| |].
+    - destruct (col_text sem (pv (cval c))); [|discriminate].
+      destruct (slots_text sem sl); [discriminate|]. simpl. intros H. apply IH. exact H.
+    - destruct (slots_text sem sl); [discriminate|]. simpl. intros H. apply IH. exact H.
+  Qed.
+
   Lemma writer_iadd_modes (wS wL wT : writer) (r : mrec) :
     same_writer wS wL -> same_writer wS wT ->
     w_mode wS = Silent -> w_mode wL = Lenient -> w_mode wT = Strict ->
@@ -772,13 +784,12 @@ Section WriterModes.
     let aL := writer_iadd sem wL r in
     let aT := writer_iadd sem wT r in
     fst (fst aS) = [] /\ not_format (snd aS) /\ snd aL = snd aS /\ same_writer (snd (fst aS)) (snd (fst aL)) /\
-    w_scheme (snd (fst aT)) = w_scheme (snd (fst aS)) /\
     forall r', snd aS = Ok r' ->
       fst (fst aL) = map (LIgnored LgWriter) (merrs r') /\ fst (fst aT) = [] /\
       match merrs r' with
       | [] => snd aT = Ok r' /\ same_writer (snd (fst aS)) (snd (fst aT))
-      | e0 :: _ => snd aT = Raise (format_of e0) /\
-                   exists line, w_out (snd (fst aS)) = w_out (snd (fst aT)) ++ [line]
+      | e0 :: _ => snd aT = Raise (format_of e0) /\ snd (fst aT) = wT /\
+                   exists col line, w_out (snd (fst aS)) = w_out wS ++ col ++ [line]
       end.
   Proof.
     intros (HhL & HsL & HoL) (HhT & HsT & HoT) MS ML MT aS aL aT. subst aS aL aT.
@@ -789,8 +800,8 @@ Section WriterModes.
     destruct (scheme_missing (w_scheme wS) && negb (names_writable _)).
     { (* the column names cannot be written: ValueError in every mode, nothing changes *)
       cbn [fst snd]. split; [reflexivity|]. split; [discriminate|]. split; [reflexivity|].
-      split; [repeat split; assumption|]. split; [now rewrite HsT|]. discriminate. }
-    rewrite <- HhL, <- HsL, <- HoL, <- HhT, <- HsT, <- HoT, MS, ML, MT.
+      split; [repeat split; assumption|]. discriminate. }
+    rewrite <- HsL, <- HsT, MS, ML, MT.
     match goal with |- context [match ?X with (a, b) => _ end] => destruct X as [sch0 out1] end.
     pose proof (record_validate_modes sem r LgWriter true (Some sch0)) as Hc.
     unfold stringency_contract in Hc.
@@ -799,29 +810,22 @@ Section WriterModes.
       destruct (record_validate sem r (Some Strict) LgWriter true (Some sch0)) as [lgT resT];
       simpl in Hc; destruct Hc as (-> & HnfS & _ & Hc).
     - destruct Hc as ((vL & -> & <- & _) & -> & HcT).
-      destruct (record_text sem vS) as [t|e] eqn:ET; simpl.
+      destruct (record_text sem vS) as [t|e] eqn:ET; cbn [fst snd].
       + split; [reflexivity|]. split; [discriminate|]. split; [reflexivity|].
-        split; [repeat split|].
+        split; [unfold same_writer; cbn [w_header w_scheme w_out]; rewrite HhL, HoL; auto|].
+        intros r' Hr. injection Hr as <-.
         destruct (merrs vS) as [|e0 er] eqn:EM.
-        * destruct HcT as (-> & vT & -> & <- & _). rewrite ET. simpl. split; [reflexivity|].
-          intros r' Hr. injection Hr as <-. rewrite EM. repeat split.
-        * destruct HcT as (-> & ->). simpl. split; [reflexivity|].
-          intros r' Hr. injection Hr as <-. rewrite EM. repeat split. exists t. reflexivity.
-      + split; [reflexivity|]. split; [intros t l H; discriminate H || (injection H as H; revert H)|].
-        2:{ split; [reflexivity|]. split; [repeat split|].
-            destruct (merrs vS) as [|e0 er] eqn:EM.
-            - destruct HcT as (-> & vT & -> & <- & _). rewrite ET. simpl. split; [reflexivity|]. discriminate.
-            - destruct HcT as (-> & ->). simpl. split; [reflexivity|]. discriminate. }
-        (* record_text only raises PlainException *)
-        clear - ET. intros ->. unfold record_text in ET.
-        destruct (slots_text sem (rlist (mcols vS))) as [ts|e'] eqn:E1; [discriminate|].
-        simpl in ET. injection ET as ->.
-        revert E1. generalize (rlist (mcols vS)). intros sl. induction sl as [|[c|] sl IH]; simpl; [discriminate| |].
-        * destruct (col_text sem (pv (cval c))); [|discriminate].
-          destruct (slots_text sem sl); [discriminate|]. simpl. intros H. apply IH. exact H.
-        * destruct (slots_text sem sl); [discriminate|]. simpl. intros H. apply IH. exact H.
-    - destruct Hc as (-> & -> & -> & ->). simpl.
-      split; [reflexivity|]. split; [exact HnfS|]. split; [reflexivity|]. split; [repeat split|].
-      split; [reflexivity|]. discriminate.
+        * destruct HcT as (-> & vT & -> & <- & _). rewrite ET. cbn [fst snd].
+          split; [reflexivity|]. split; [reflexivity|]. split; [reflexivity|].
+          unfold same_writer; cbn [w_header w_scheme w_out]. rewrite HhT, HoT; auto.
+        * destruct HcT as (-> & ->). cbn [fst snd].
+          split; [reflexivity|]. split; [reflexivity|]. split; [reflexivity|]. split; [reflexivity|].
+          exists out1, t. cbn [w_out]. now rewrite <- app_assoc.
+      + split; [reflexivity|]. split; [intros t l H; injection H as H; exact (record_text_not_format vS e ET t l H)|].
+        split; [reflexivity|].
+        split; [unfold same_writer; cbn [w_header w_scheme w_out]; rewrite HhL, HoL; auto|]. discriminate.
+    - destruct Hc as (-> & -> & -> & ->). cbn [fst snd].
+      split; [reflexivity|]. split; [exact HnfS|]. split; [reflexivity|]. split; [repeat split; assumption|].
+      discriminate.
   Qed.
 End WriterModes.
